@@ -1167,6 +1167,28 @@ func ruleTwoPasses(c *Ctx, r *Repo, rule string) {
 		return true
 	})
 	ok := initPos.IsValid() && readPos.IsValid() && initPos < readPos
+	// .. and the second pass does the work again: Initialize has no successful return that bypasses its loops
+	// (round 6: an "already initialised" guard turned the second pass into a no-op)
+	if init := FuncDecl(cp, "RootConfig.Initialize"); init != nil {
+		paths, _ := enumerateFunc(cp.TypesInfo, init)
+		okWork := len(paths) > 0
+		why := ""
+		for _, p := range paths {
+			if p.Exit == "return" && len(p.Ret) == 1 && p.Ret[0] == "nil" && hasStep(p, "loop") == 0 && len(p.CallsTo("Initialize")) == 0 {
+				// a helper that contains the loops is acceptable; a bare early success is not
+				helper := false
+				for _, call := range p.Calls {
+					if fn := strings.TrimPrefix(call.Name, "(config.RootConfig)."); fn != call.Name && fn != "Initialize" {
+						helper = true
+					}
+				}
+				if !helper {
+					okWork, why = false, p.String()
+				}
+			}
+		}
+		c.Check(okWork, rule, "Initialize|every-call-works", r.Pos(init.Pos()), "every successful Initialize has walked the packages", "RootConfig.Initialize can report success without walking the packages ("+why+"): the second pass in Run, which carries what a recursive package pushed into a listed sub-package down to that sub-package's interfaces, does nothing")
+	}
 	c.Check(ok, rule, "Run|second-pass", r.Pos(run.Pos()), "Run re-initialises the configuration before listing the packages (its error is covered by R09.1)", "RootApp.Run does not run RootConfig.Initialize before it reads the packages: what a recursive package pushed into a listed sub-package during the first pass never reaches that sub-package's listed interfaces, whose mocks are then rendered with the template-data of a less specific level")
 }
 
